@@ -123,57 +123,69 @@ Proof. exact out_of_range_is_error_l. Qed.
 Print Assumptions out_of_range_is_error.
 
 (* ---------------------------------------------------------------- Mech against Spec *)
-(* declaration, assignment, compound assignment, argument passing and global scalar initialisers
-   of /repo behave as the property demands, for every type and every value *)
+(* declaration, assignment, compound assignment, argument passing, global scalar initialisers, ++/-- on
+   variables, function results, multi-dimensional element stores and nested literals of /repo behave as
+   the property demands, for every type and every value *)
 Theorem checked_paths_refine_spec : forall p, In p checked_paths -> forall t v, mech_store p t v = coerce t v.
 Proof. exact checked_paths_refine_l. Qed.
 Print Assumptions checked_paths_refine_spec.
 
-(* so do stores into 1-D arrays of signed element types (reads included), and unsigned ones in the
-   lower half of the range *)
+(* so do ++/-- on variables (fix 892a98c), function results (d7775cd), multi-dimensional element stores
+   (a6c628c) and nested array literals (11769f3) - named instances of the theorem above *)
+Theorem incdec_is_checked : forall t v, mech_store PIncDecVar t v = coerce t v.
+Proof. exact incdec_is_checked_l. Qed.
+Print Assumptions incdec_is_checked.
+
+Theorem return_is_checked : forall t v, mech_store PReturn t v = coerce t v.
+Proof. exact return_is_checked_l. Qed.
+Print Assumptions return_is_checked.
+
+Theorem multidim_store_is_checked : forall t v,
+  mech_store PElemN t v = coerce t v /\ mech_store PLitN t v = coerce t v.
+Proof. exact multidim_store_is_checked_l. Qed.
+Print Assumptions multidim_store_is_checked.
+
+(* 1-D element storage - assignment, compound assignment, ++/-- (fix 1b2d709), local array literal
+   (fix 11769f3): as demanded for signed element types (reads included) and for the lower half of the
+   unsigned ones; the upper half is the narrowing-read finding below *)
 Theorem element_store_refines_spec_partial :
-  (forall t v, uns t = false -> mech_store PElem1 t v = coerce t v /\ mech_store PElem1Compound t v = coerce t v) /\
+  (forall p t v, In p element_paths -> uns t = false -> mech_store p t v = coerce t v) /\
   (forall b v bits, bits_of b = Some bits -> b <> TChar -> 0 <= v < 2 ^ (bits - 1) ->
      mech_store PElem1 {| base := b; uns := true |} v = Val v).
 Proof. split; [exact elem1_signed_refines_l|exact elem1_unsigned_low_half_l]. Qed.
 Print Assumptions element_store_refines_spec_partial.
 
-(* every other path has a 64-bit value on which today's behaviour is not the demanded one *)
+(* a[i]++ / a[i]--: the stored element +-1 is converted like any store and an out-of-range result is an
+   error for every element type - never a silent wrap *)
+Theorem incdec_element_is_checked : forall t old delta,
+  (uns t = false -> mech_elem1_update PIncDecElem1 t old delta = coerce t (old + delta)) /\
+  (coerce t (old + delta) = Fail ERange -> mech_elem1_update PIncDecElem1 t old delta = Fail ERange).
+Proof. exact incdec_element_is_checked_l. Qed.
+Print Assumptions incdec_element_is_checked.
+
+Theorem array_literal_is_checked : forall t v,
+  (uns t = false -> mech_store PLit1 t v = coerce t v) /\
+  (coerce t v = Fail ERange -> mech_store PLit1 t v = Fail ERange).
+Proof. exact array_literal_is_checked_l. Qed.
+Print Assumptions array_literal_is_checked.
+
+(* every remaining path has a 64-bit value on which today's behaviour is not the demanded one *)
 Theorem unchecked_paths_refuted : forall p, In p unchecked_paths ->
   let '(t, v) := witness p in in64 v = true /\ mech_store p t v <> coerce t v.
 Proof. exact unchecked_paths_refuted_l. Qed.
 Print Assumptions unchecked_paths_refuted.
 
-Theorem incdec_is_checked_refuted :          (* finding #7: tiny t = 127; t++; *)
-  mech_store PIncDecVar tiny 128 = Val 128 /\ coerce tiny 128 = Fail ERange /\ in_range tiny 128 = false.
-Proof. exact incdec_is_checked_refuted_l. Qed.
-Print Assumptions incdec_is_checked_refuted.
-
-Theorem incdec_element_is_checked_refuted :  (* tiny[3] a = [0,127,0]; a[1]++;  reads -128 *)
-  mech_elem1_update PIncDecElem1 tiny 127 1 = Val (-128) /\ coerce tiny (127 + 1) = Fail ERange.
-Proof. exact incdec_element_is_checked_refuted_l. Qed.
-Print Assumptions incdec_element_is_checked_refuted.
-
-Theorem return_is_checked_refuted :          (* tiny f(long a) { return a; }  f(128) *)
-  mech_store PReturn tiny 128 = Val 128 /\ coerce tiny 128 = Fail ERange.
-Proof. exact return_is_checked_refuted_l. Qed.
-Print Assumptions return_is_checked_refuted.
-
-Theorem multidim_store_is_checked_refuted :  (* tiny[2][3] m; m[1][0] = 128;  and the nested literal *)
-  mech_store PElemN tiny 128 = Val 128 /\ mech_store PLitN tiny (-129) = Val (-129) /\
-  coerce tiny 128 = Fail ERange /\ coerce tiny (-129) = Fail ERange.
-Proof. exact multidim_store_is_checked_refuted_l. Qed.
-Print Assumptions multidim_store_is_checked_refuted.
-
-Theorem array_literal_is_checked_refuted :   (* tiny[3] a = [128,0,0];  reads -128 *)
-  mech_store PLit1 tiny 128 = Val (-128) /\ mech_store PGlobalArr tint 2147483648 = Val (-2147483648) /\
-  coerce tiny 128 = Fail ERange /\ coerce tint 2147483648 = Fail ERange.
-Proof. exact array_literal_is_checked_refuted_l. Qed.
-Print Assumptions array_literal_is_checked_refuted.
+Theorem global_array_literal_is_checked_refuted : (* global tiny[3] g = [128,0,0]; reads -128; unsigned: no clamp *)
+  mech_store PGlobalArr tiny 128 = Val (-128) /\ mech_store PGlobalArr tint 2147483648 = Val (-2147483648) /\
+  mech_store PGlobalArr utiny (-1) = Val (-1) /\
+  coerce tiny 128 = Fail ERange /\ coerce tint 2147483648 = Fail ERange /\ coerce utiny (-1) = Val 0.
+Proof. exact global_array_literal_is_checked_refuted_l. Qed.
+Print Assumptions global_array_literal_is_checked_refuted.
 
 Theorem unsigned_element_reads_back_refuted : (* unsigned tiny[2] a; a[0] = 254;  reads -2 *)
   in_range utiny 254 = true /\ coerce utiny 254 = Val 254 /\ mech_store PElem1 utiny 254 = Val (-2) /\
-  in_range utiny (-2) = false /\ mech_elem1_update PElem1Compound utiny 244 10 = Val 0.
+  in_range utiny (-2) = false /\ mech_elem1_update PElem1Compound utiny 244 10 = Val 0 /\
+  mech_store PLit1 utiny 254 = Val (-2) /\ mech_elem1_update PIncDecElem1 utiny 253 1 = Val (-2).
 Proof. exact unsigned_element_reads_back_refuted_l. Qed.
 Print Assumptions unsigned_element_reads_back_refuted.
 
@@ -182,8 +194,9 @@ Theorem static_unsigned_clamps_refuted :     (* static unsigned tiny s = -1;  ke
 Proof. exact static_unsigned_clamps_refuted_l. Qed.
 Print Assumptions static_unsigned_clamps_refuted.
 
-Theorem bare_multidim_value_is_checked_refuted : (* int q = 0; q = m[1][1];  with m[1][1] = 4294967296 *)
-  mech_store PAssignFromElemN tint 4294967296 = Val 4294967296 /\ coerce tint 4294967296 = Fail ERange /\
+Theorem bare_multidim_value_is_checked_refuted : (* int q = 0; q = m[1][1];  /  int f() { return m[1][1]; }  with m[1][1] = 4294967296 *)
+  mech_store PAssignFromElemN tint 4294967296 = Val 4294967296 /\ mech_store PReturnElemN tint 4294967296 = Val 4294967296 /\
+  coerce tint 4294967296 = Fail ERange /\
   mech_store PAssignFromElemN tiny (-129) = Fail ERange /\ mech_store PAssignFromElemN tiny 128 = Fail ERange.
 Proof. exact bare_multidim_value_is_checked_refuted_l. Qed.
 Print Assumptions bare_multidim_value_is_checked_refuted.
